@@ -114,9 +114,14 @@ CLAIMS = {
             "a value or OutOfFuel - never an Err, never a panic (C01_decode_never_panics, C01_decode_bytes_never_panics, "
             "C01_decode_bytes_no_error). Termination (T01g): the theta loop runs at most once for atan2 in [-pi,pi]; in "
             "exact arithmetic the Bezier subdivision finishes within 2^(d+1) iterations when the second differences are "
-            "bounded by 4^d/2 (the 2^20 fuel covers 4^19/2); PARTIAL for IEEE arithmetic (only flat / equal-point classes); "
-            "refuted without a coordinate bound (finding D25: an infinite or overflowing control point never becomes flat - "
-            "public API only, the parser bounds coordinates). Node count = repeats + 2 <= 9001; NonZeroU32::new_unchecked "
+            "bounded by 4^d/2 (the 2^20 fuel covers 4^19/2); for IEEE arithmetic PROVED for n control points with finite "
+            "coordinates within +-2^E and n*2^E <= 2^22 (C01_T01g_ieee_bounded, C01_T01g_curve_bounded: binary32 error "
+            "analysis through Flocq; e.g. <= 1024 control points within +-4096, <= 32 within +-131072, <= 16 anywhere in the "
+            "parser's range), PARTIAL beyond (more "
+            "control points far from the origin: no failing segment found, probes/T01g_search); "
+            "refuted without a coordinate bound (finding D25: an infinite or overflowing control point never becomes flat, "
+            "and from 2^22 on there are finite segments that are their own child, C01_T01g_ieee_refuted_finite - "
+            "public API only, the parser bounds coordinates to +-2^18 relative to the slider). Node count = repeats + 2 <= 9001; NonZeroU32::new_unchecked "
             "only sees values >= 2. (4) re-encoding: every decoded map has sorted control points and sliders with "
             "0 <= repeats < 9000, non-empty control points and an absent or positive length (C01_decoded_shape); the "
             "encoder can panic or run out of fuel ONLY inside the two SliderEventsIter collects "
